@@ -223,10 +223,13 @@ def get_folding_profile_section(
     else:
         delta = round(Decimal(window[2]), 2)
         start = round(Decimal(window[0]), 3)
+        end = round(Decimal(window[1]), 3)
         tol = Decimal("0.0005")
         for (ph, dg) in profile:
             ph = round(Decimal(ph), 3)
-            if ph >= window[0] and ph <= window[1]:
+            # compare decimals with decimals: a float bound such as 0.1 or
+            # 0.7 is not the decimal the user typed
+            if start <= ph <= end:
                 # distance of ph to the nearest point of the window lattice
                 offset = (ph - start) % delta
                 if offset < tol or delta - offset < tol:
